@@ -87,9 +87,22 @@ template<class Graph> struct MpiRun {
             WMap wm = boost::get(boost::edge_weight, g);
             boost::mpi::communicator comm;
             std::list<std::list<Edge>> cycles;
+            const bool positional = (seed % 3 == 1);
+            std::vector<std::list<Edge>> slots(positional ? m + 8 : 0);
             W ret = W();
             try {
-                if (algo == "signed_mpi") ret = parmcb::mcb_sva_signed_mpi(g, wm, std::back_inserter(cycles), comm);
+                // every third configuration hands the library an iterator into a pre-sized vector instead of a back_inserter
+                if (positional) {
+                    auto ps = slots.begin();
+                    if (algo == "signed_mpi") ret = parmcb::mcb_sva_signed_mpi(g, wm, ps, comm);
+                    else if (algo == "fvs_mpi") ret = parmcb::mcb_sva_fvs_trees_mpi(g, wm, ps, comm);
+                    else if (algo == "fvs_tbb_mpi") ret = parmcb::mcb_sva_fvs_trees_tbb_mpi(g, wm, ps, comm);
+                    else if (algo == "iso_mpi") ret = parmcb::mcb_sva_iso_trees_mpi(g, wm, ps, comm);
+                    else if (algo == "iso_tbb_mpi") ret = parmcb::mcb_sva_iso_trees_tbb_mpi(g, wm, ps, comm);
+                    else throw std::runtime_error("unknown algo");
+                    for (auto &sl : slots) if (!sl.empty()) cycles.push_back(sl);
+                }
+                else if (algo == "signed_mpi") ret = parmcb::mcb_sva_signed_mpi(g, wm, std::back_inserter(cycles), comm);
                 else if (algo == "fvs_mpi") ret = parmcb::mcb_sva_fvs_trees_mpi(g, wm, std::back_inserter(cycles), comm);
                 else if (algo == "fvs_tbb_mpi") ret = parmcb::mcb_sva_fvs_trees_tbb_mpi(g, wm, std::back_inserter(cycles), comm);
                 else if (algo == "iso_mpi") ret = parmcb::mcb_sva_iso_trees_mpi(g, wm, std::back_inserter(cycles), comm);
@@ -103,7 +116,7 @@ template<class Graph> struct MpiRun {
             outs[(size_t) r].ret = (double) ret;
         });
         bool layout_ok = true; for (auto &o : outs) layout_ok = layout_ok && o.layout_ok;
-        std::ostringstream meta; meta << "{\"P\":" << P << ",\"layout\":\"" << layout << "\",\"seed\":" << seed << ",\"reduce\":" << reduce_policy << ",\"collectives\":" << world.collectives << "}";
+        std::ostringstream meta; meta << "{\"P\":" << P << ",\"sink\":\"" << (seed % 3 == 1 ? "positional" : "inserter") << "\",\"layout\":\"" << layout << "\",\"seed\":" << seed << ",\"reduce\":" << reduce_policy << ",\"collectives\":" << world.collectives << "}";
         if (!layout_ok) { emit(J().s("e", "LayoutError").s("algo", algo).i("id", in.id).raw("meta", meta.str()).str()); return; }
         if (g_msg) {
             // message-level trace: Run (graph, forest index, rank 0's output, per-rank termination) ; Coll* (in completion order) ; End
